@@ -4,11 +4,11 @@
    The raw pairwise distance cdist(features[u], features[v], 'cosine') is an oracle
    input; everything the repository itself computes from it is modelled. *)
 From Coq Require Import ZArith List Bool.
-From MW Require Import Num Assoc Rng CF.
+From MW Require Import Num Assoc Rng CF Matrix Lin.
 Import ListNotations.
 
 Section Warm.
-Context {R A : Type} (N : Num R) (aeqb : A -> A -> bool).
+Context {R A G : Type} (N : Num R) (aeqb : A -> A -> bool).
 
 Definition self_distance : R := of_Z N 999999.
 Definition is_nan (x : R) : bool := negb (eqb N x x).
@@ -66,14 +66,17 @@ Definition cold_arms (s : @cf R A) : list A :=
 Definition dist_lookup (dt : list (A * list (A * R))) (u v : A) : R :=
   aget_d aeqb (zero N) (aget_d aeqb [] dt u) v.
 
-(* _get_cold_arm_to_warm_arm *)
-Definition cold_to_warm (s : @cf R A) (dt : list (A * list (A * R))) (thr : R) : list (A * A) :=
+(* _get_cold_arm_to_warm_arm, given the lists self.trained_arms and self.cold_arms *)
+Definition cold_to_warm_gen (trained cold : list A) (dt : list (A * list (A * R))) (thr : R) : list (A * A) :=
   flat_map (fun c =>
-     let cand := map (fun a => (a, dist_lookup dt c a)) (trained_arms s) in
+     let cand := map (fun a => (a, dist_lookup dt c a)) trained in
      match argmin_first cand with
      | None => []
      | Some w => if leb N (dist_lookup dt c w) thr then [(c, w)] else []
-     end) (cold_arms s).
+     end) cold.
+
+Definition cold_to_warm (s : @cf R A) (dt : list (A * list (A * R))) (thr : R) : list (A * A) :=
+  cold_to_warm_gen (trained_arms s) (cold_arms s) dt thr.
 
 (* _copy_arms *)
 Definition copy_arm (s : @cf R A) (cw : A * A) : @cf R A :=
@@ -114,6 +117,35 @@ Definition cf_warm_start (s : @cf R A) (keys : list A) (raw : A -> A -> R) (q : 
         let s2 := match c_kind s with KSoftmax => softmax_expectation N aeqb s1 | _ => s1 end in
         Some (fold_left mark_warm m s2)
     end
+  end.
+
+(* ---- linear policies ---------------------------------------------------------- *)
+Definition lin_trained_arms (s : @lin R A G) : list A :=
+  filter (fun a => st_trained (aget_d aeqb status0 (l_status s) a)) (l_arms s).
+Definition lin_cold_arms (s : @lin R A G) : list A :=
+  filter (fun a => let x := aget_d aeqb status0 (l_status s) a in
+                   negb (st_trained x) && negb (st_warm x)) (l_arms s).
+
+(* _Linear._copy_arms: deepcopy of the warm arm's regression object (its generator included) *)
+Definition lin_copy_arm (g : G) (s : @lin R A G) (cw : A * A) : @lin R A G :=
+  let (c, w) := cw in
+  let mw := aget_d aeqb ridge_new (l_models s) w in
+  let mw' := mkRidge (r_beta mw) (r_A mw) (r_Ainv mw) (r_Xty mw) (r_scaler mw)
+                     (Some (match r_rng mw with Some g' => g' | None => g end)) in
+  set_models s (aset aeqb (l_models s) c mw').
+
+Definition lin_mark_warm (s : @lin R A G) (cw : A * A) : @lin R A G :=
+  let (c, w) := cw in
+  let x := aget_d aeqb status0 (l_status s) c in
+  set_lstatus s (aset aeqb (l_status s) c (mkStatus (st_trained x) true (Some w))).
+
+Definition lin_warm_start (s : @lin R A G) (g : G) (keys : list A) (raw : A -> A -> R) (q : R) : option (@lin R A G) :=
+  let dt := distance_table keys raw in
+  match distance_threshold dt q with
+  | None => None
+  | Some thr =>
+      let m := cold_to_warm_gen (lin_trained_arms s) (lin_cold_arms s) dt thr in
+      Some (fold_left lin_mark_warm m (fold_left (lin_copy_arm g) m s))
   end.
 
 End Warm.
